@@ -131,8 +131,63 @@ def r4_observer_snapshots(ctx):
     chain_always_pushed(ctx, 'C06.R4', ['ErrorObserver'], 'observer chain')
 
 
+def r5_error_ref_index_agrees(ctx):
+    ctx.rule('C06.R5', 'P4 agreement between writer and reader of `error_ref_input_index`: the `#[error_handler]` macro writes the position of the '
+             '`#[px(error_ref)]` parameter and pavexc reads it as an index into the callable\'s FULL input list (receiver included) to learn which '
+             'error type the handler is filed under. Macro side: in pavex_macros::error_handler every position comes from `enumerate()` / `position()` '
+             'applied to the un-adapted iterator over `sig.inputs` (`Punctuated<FnArg>::iter()`): an `enumerate` over a `filter_map` / `skip` / `filter` '
+             'numbers a different sequence, and `&self, #[px(error_ref)] e: &AuthError` is then filed under the receiver\'s type. Compiler side: the '
+             'index is applied to `inputs()` of the callable as it is (no arithmetic on the way).')
+    MC = ('pavex_macros', 'ProcMacro')
+    if MC not in ctx.fb.available():
+        ctx.need('C06.R5', 'fact file of the proc-macro crate pavex_macros', None)
+        return
+    n = 0
+    for b in ctx.fb.bodies(*MC):
+        if b.is_promoted or not b.nid.startswith('pavex_macros::error_handler::'):
+            continue
+        for bb, t in b.calls():
+            m = (callee(t) or '').split('::')[-1]
+            if (callee(t) or '').startswith('core::iter::traits::iterator::Iterator::') and m in ('enumerate', 'position', 'rposition'):
+                ty = t['aty'][0] if t['aty'] else ''
+                if 'FnArg' not in ty and 'PatType' not in ty and 'Receiver' not in ty:
+                    continue
+                n += 1
+                plain = strip_generics(ty.lstrip('&').replace('mut ', '')).split('<')[0] in ('syn::punctuated::Iter', 'syn::punctuated::IterMut', 'core::slice::iter::Iter') \
+                    and 'core::iter::adapters::' not in ty and 'FnArg' in ty
+                ctx.ob('C06.R5', 'positions-in-the-full-input-list|%s|%s' % (b.nid.replace('pavex_macros::', ''), m), plain, b.loc(bb, t),
+                       '%s() numbers %s: %s' % (m, ty[:140], 'the inputs as the compiler sees them' if plain else 'NOT the full, unfiltered list of inputs — the position it yields is not the index pavexc applies to the callable\'s inputs'))
+    ctx.floor('C06.R5', 'position computations over the handler\'s inputs in pavex_macros::error_handler', n, 1)
+    # compiler side
+    EH = 'pavexc::compiler::component::error_handler::'
+    k = 0
+    for b in ctx.fb.bodies('pavexc'):
+        if b.is_promoted or not b.nid.startswith(EH):
+            continue
+        defs = None
+        for bb, j, st in b.all_assigns():
+            rv = st['rv']
+            pl = rv.get('pl') if rv['k'] in ('ref', 'cfd') else (op_place(rv['op']) if rv['k'] == 'use' else None)
+            idx = [e for e in ((pl or {}).get('p') or []) if e.startswith('i:')]
+            if not idx or 'rustdoc_ir::callable::CallableInput' not in str((pl or {}).get('fo') or b.locals[pl['l']]):
+                continue
+            defs = defs or Defs(b)
+            il = int(idx[0][2:])
+            sl, locs = backward_slice(b, il, defs, through_calls=False)
+            reads = any('f:error_ref_input_index' in ((nd['rv'].get('pl') or op_place(nd['rv'].get('op') or {}) or {}).get('p') or []) for _, _, nd in sl if 'rv' in nd)
+            from_param = any(1 <= l <= b.raw['argc'] and b.locals[l] == 'usize' for l in locs | {il})
+            if not (reads or from_param):
+                continue
+            k += 1
+            arith = [nd['rv']['bop'] for _, _, nd in sl if 'rv' in nd and nd['rv']['k'] == 'bin']
+            ctx.ob('C06.R5', 'index-applied-as-is|%s' % b.nid.replace(EH, ''), not arith, b.loc(bb, st),
+                   'inputs()[error_ref_input_index]: arithmetic on the index on the way: %s' % (arith or 'none'))
+    ctx.floor('C06.R5', 'places where pavexc indexes the handler\'s inputs with error_ref_input_index', k, 1)
+
+
 def check(ctx):
     r1_build_order(ctx)
     r2_observer_splice(ctx)
     r3_lookup(ctx)
     r4_observer_snapshots(ctx)
+    r5_error_ref_index_agrees(ctx)
